@@ -420,6 +420,30 @@ theorem sqrtRhoScale_sq {lam : ℝ} (h : 0 ≤ lam) : sqrtRhoScale lam * sqrtRho
 theorem sqrtRhoScale_of_neg {lam : ℝ} (h : lam ≤ 0) : sqrtRhoScale lam = 0 := by
   simp only [sqrtRhoScale, SqrtLog.sqrt, pyMax0, not_lt.2 h, if_false, Real.sqrt_zero]
 
+/-- both cases at once: the squared scale is the clamped eigenvalue `max(0, λ)` -/
+theorem sqrtRhoScale_mul_self (lam : ℝ) : sqrtRhoScale lam * sqrtRhoScale lam = max 0 lam := by
+  rcases le_total 0 lam with h | h
+  · rw [sqrtRhoScale_sq h, max_eq_right h]
+  · rw [sqrtRhoScale_of_neg h, max_eq_left h]; simp
+
+/-- **`sqrtRho_gram` at the executed instance**: with `S[k,j] = sqrtRhoEntry …` (real and imaginary part of `EVC[k, N-rank+j]` scaled by
+`sqrtRhoScale(EVL[N-rank+j])`, the constants the driver op `sqrtrho` executes) the Gram matrix of `_sqrt_rho` is the truncated spectral sum
+with every eigenvalue clamped at 0: `Σ_j S[k,j] conj S[k',j] = Σ_j max(0, λ_j) v[k,j] conj v[k',j]` - for non-negative kept eigenvalues the
+`eigh` contract makes this `ρ` (rank-truncated); a rounding-negative eigenvalue contributes exactly 0. -/
+theorem sqrtRhoEntry_gram (evl : List ℝ) (N rank : ℕ) (vr vi : ℕ → ℕ → ℝ) (k k' : ℕ) :
+    ∑ j ∈ Finset.range rank, (⟨sqrtRhoEntry evl N rank j (vr k j), sqrtRhoEntry evl N rank j (vi k j)⟩ : ℂ)
+        * star (⟨sqrtRhoEntry evl N rank j (vr k' j), sqrtRhoEntry evl N rank j (vi k' j)⟩ : ℂ)
+      = ∑ j ∈ Finset.range rank, ((max 0 (evl.getD (N - rank + j) 0) : ℝ) : ℂ)
+          * ((⟨vr k j, vi k j⟩ : ℂ) * star (⟨vr k' j, vi k' j⟩ : ℂ)) := by
+  refine Finset.sum_congr rfl fun j _ => ?_
+  have hs := sqrtRhoScale_mul_self (evl.getD (N - rank + j) 0)
+  set s := sqrtRhoScale (evl.getD (N - rank + j) 0) with hsd
+  apply Complex.ext
+  · simp only [sqrtRhoEntry, Complex.mul_re, Complex.star_def, Complex.conj_re, Complex.conj_im, Complex.ofReal_re, Complex.ofReal_im, ← hs, ← hsd]
+    ring
+  · simp only [sqrtRhoEntry, Complex.mul_im, Complex.mul_re, Complex.star_def, Complex.conj_re, Complex.conj_im, Complex.ofReal_re, Complex.ofReal_im, ← hs, ← hsd]
+    ring
+
 /-- **the GME loss lies in `[0,1]`**: each `|overlap_α|² ≤ p_α` (theorem `overlap_sq_le`), `Σ p_α = 1` -/
 theorem gmeLoss_range (l : List ((ℝ × ℝ) × ℝ)) (h : ∀ m ∈ l, m.1.1 * m.1.1 + m.1.2 * m.1.2 ≤ m.2)
     (hw : (l.map Prod.snd).sum = 1) : 0 ≤ gmeLoss (l.map Prod.fst) ∧ gmeLoss (l.map Prod.fst) ≤ 1 := by
